@@ -9,7 +9,12 @@ macro or `#` range in the Go source breaks one of these `decide`s.
 -/
 namespace Facts
 
-theorem missing_none : Generated.missing = [] := by decide
+/-- no shape of the CRON fact groups is missing. (`Generated.missing` lists, with a group prefix, every source shape an extractor
+could not find; each property looks only at the groups it depends on, so that a reshaped scheduler function cannot break the
+tie of the cron properties and vice versa.) -/
+theorem missing_none :
+    Generated.missing.filter (fun s => "nodeLimits".toList.isPrefixOf s.toList || "parseBounds".toList.isPrefixOf s.toList) = [] := by decide
+
 theorem limits_eq : Generated.limits = ({} : Cron.Limits) := by decide
 theorem limitsAux_eq : Generated.limitsAux = [0, 0, 0, 1, 31] := by decide
 theorem bounds_eq : Generated.bounds = ({} : Cron.Bounds) := by decide
